@@ -15,7 +15,7 @@ import (
 // Inputs (complete enumeration of each family):
 //   mut:      well-formed base messages (encoded by the harness's own RFC 1035
 //             encoder with name compression) mutated at every byte position to
-//             {0x00, 0xff, 0xc0, value+1, value-1}, truncated at every length,
+//             {0x00, 0xff, 0xc0, '.', value+1, value-1}, truncated at every length,
 //             with every compression pointer redirected to every offset (and
 //             just past the end), and with every RDLENGTH / section count set to
 //             boundary values;
@@ -892,7 +892,7 @@ func c37GenMutations(thorough bool, yield func(c37Case) bool) {
 			// byte mutations
 			for p := 0; p < L; p++ {
 				seen := map[byte]bool{base[p]: true}
-				for _, v := range []byte{0x00, 0xff, 0xc0, base[p] + 1, base[p] - 1} {
+				for _, v := range []byte{0x00, 0xff, 0xc0, '.', base[p] + 1, base[p] - 1} {
 					if seen[v] {
 						continue
 					}
@@ -1072,7 +1072,7 @@ func c37GenOversize(yield func(c37Case) bool) {
 func TestVerif_C37(t *testing.T) {
 	vx.Run(t, "C37", func(c *vx.Ctx) {
 		th := !c.Quick()
-		c.Rule("parts: mut = every base message (one of each supported record type between a question and a trailing A record that share name suffixes, pointer-to-pointer chains, questions only, empty; thorough adds more bodies, the 254-byte name and 2-record sequences), encoded by the harness with and without RFC 1035 compression, then unmodified / truncated at every length / every byte set to {0x00,0xff,0xc0,v+1,v-1} / every compression pointer and every name start redirected to every offset 0..len+1 and 0x3fff / every RDLENGTH and section count set to boundary values; tail = header with every count pattern in {0,1,2,65535}^4 x every tail of <= 1 byte, and 15 one-hot/uniform count patterns x every tail of length 2..5 over {00,01,c0,0c,ff,'.'} (thorough: every 2-byte tail and length 3..6 over {00,01,40,c0,0c,ff,'.'}); oversize = 12 inputs > 64 KiB. Per input: Name.unpack/skipName at every offset (first 2048) against a reference name decoder; Unpack vs record-by-record Parser; every interleaving of the 6 per-record operations {full, skip, header+typed, header+skip, header twice+typed, header+full} while their number is <= the cap, else the 6 uniform and 6 rotating assignments; all 16 AllX/SkipAllX combinations; accepted => Pack and Unpack(Pack(m)) == m. non-trivial = at least one record was accepted by the parser")
+		c.Rule("parts: mut = every base message (one of each supported record type between a question and a trailing A record that share name suffixes, pointer-to-pointer chains, questions only, empty; thorough adds more bodies, the 254-byte name and 2-record sequences), encoded by the harness with and without RFC 1035 compression, then unmodified / truncated at every length / every byte set to {0x00,0xff,0xc0,'.',v+1,v-1} / every compression pointer and every name start redirected to every offset 0..len+1 and 0x3fff / every RDLENGTH and section count set to boundary values; tail = header with every count pattern in {0,1,2,65535}^4 x every tail of <= 1 byte, and 15 one-hot/uniform count patterns x every tail of length 2..5 over {00,01,c0,0c,ff,'.'} (thorough: every 2-byte tail and length 3..6 over {00,01,40,c0,0c,ff,'.'}); oversize = 12 inputs > 64 KiB. Per input: Name.unpack/skipName at every offset (first 2048) against a reference name decoder; Unpack vs record-by-record Parser; every interleaving of the 6 per-record operations {full, skip, header+typed, header+skip, header twice+typed, header+full} while their number is <= the cap, else the 6 uniform and 6 rotating assignments; all 16 AllX/SkipAllX combinations; accepted => Pack and Unpack(Pack(m)) == m. non-trivial = at least one record was accepted by the parser")
 		c.Assume("a Skip method accepting a record that its parse method rejects is allowed (documented for resource headers; skips validate less); the reverse is reported")
 		c.Assume("equality of messages is semantic (nil == empty slices, Name.Data beyond Length ignored) and ignores ResourceHeader.Length, which Pack recomputes; inputs the reference name decoder would reject but Name.unpack also rejects are not compared (the implementation may be stricter, e.g. its 10-pointer limit)")
 		icap := vx.Pick(c, 40, 250)
